@@ -57,6 +57,8 @@ type emitter struct {
 	counters   map[string]int
 	corpusFile string
 	onlyCorpus bool
+	shard      int
+	nshards    int
 	samples    []string
 }
 
@@ -68,6 +70,9 @@ func newEmitter(w *bufio.Writer, engine string) *emitter {
 // implementation's output) is used to drop duplicate cases so that counts are of distinct inputs.
 func (e *emitter) emit(key string, fields ...string) bool {
 	h := maphash.String(e.seed, key)
+	if e.nshards > 1 && fnv(key)%uint64(e.nshards) != uint64(e.shard) {
+		return false
+	}
 	if _, dup := e.seen[h]; dup {
 		e.dups++
 		return false
@@ -134,4 +139,20 @@ func safely(f func()) (panicked bool, msg any) {
 	}()
 	f()
 	return false, nil
+}
+
+// fnv is a process-independent hash (maphash seeds differ between processes) used for sharding.
+func fnv(s string) uint64 {
+	h := uint64(14695981039346656037)
+	for i := 0; i < len(s); i++ {
+		h ^= uint64(s[i])
+		h *= 1099511628211
+	}
+	return h
+}
+
+// mine reports whether a case with this key belongs to this process's shard; generators call it before doing
+// expensive work (running the implementation) for a case.
+func (e *emitter) mine(key string) bool {
+	return e.nshards <= 1 || fnv(key)%uint64(e.nshards) == uint64(e.shard)
 }
